@@ -271,7 +271,9 @@ def gray2binary(num: IntOrIntArray) -> IntOrIntArray:
     array([0, 1, 2, 3, 4, 5, 6, 7, 8, 9])
 
     """
-    temp = xor(num, (num >> 8))
+    temp = xor(num, (num >> 32))
+    temp = xor(temp, (temp >> 16))
+    temp = xor(temp, (temp >> 8))
     temp = xor(temp, (temp >> 4))
     temp = xor(temp, (temp >> 2))
     temp = xor(temp, (temp >> 1))
